@@ -9,7 +9,7 @@ for p in props:
     pid = p["id"]
     f = os.path.join(V, "vmon", "props", pid.lower() + ".py")
     n = NOTES.get(pid, {})
-    if not os.path.exists(f) or n.get("not_applicable"):
+    if not os.path.exists(f) or n.get("not_applicable") or "text" not in n:
         na.append({"property_id": pid, "reason": n.get("not_applicable", "check not built yet (runtime monitor planned, see DESIGN.md section 4)")})
         continue
     src = open(f).read()
